@@ -21,8 +21,8 @@ from sim.env import SimEnv, UNIT
 
 ID = "C10"
 LEVEL = "exploration"
-QUICK_N = 24000
-THOROUGH_N = 900000
+QUICK_N = 40000
+THOROUGH_N = 3000000
 CHUNK = 400
 RULE = ("gen(seed): 1-4 addresses over two families (duplicates allowed), per-address outcome "
         "accept/refuse/blackhole/sync_error with delay on a grid around 0.3 s and around the "
@@ -123,11 +123,13 @@ def gen(rng, tier, index):
         o = rng.choices(OUTCOMES, weights)[0]
         if mode < 0.25:
             d = rng.choice([0, 0, 1, 1, 2, 3])
+        elif tier == "thorough" and rng.random() < 0.3:
+            d = rng.randint(0, (T or 700) + 320)  # off-grid delays
         else:
             d = rng.choice(grid)
         if tie_d is not None and rng.random() < 0.8:
             d = tie_d
-        a = {"fam": fam, "ip": rng.randint(0, 2), "o": o, "d": d}
+        a = {"fam": fam, "ip": rng.randint(0, 2 if tier == "quick" else 3), "o": o, "d": d}
         if o == "refuse":
             a["errno"] = rng.choice(REFUSE_ERRNOS)
         elif o == "sync_error":
@@ -205,13 +207,8 @@ def validate(scn):
                 return False
         t = scn.get("timeout")
         if t is not None:
-            if t["kind"] == "float":
-                t["units"] >= 0
-            elif t["kind"] == "int":
-                t["seconds"] >= 0
-            elif t["kind"] == "td":
-                t["us"] >= 0
-            else:
+            v = {"float": "units", "int": "seconds", "td": "us"}[t["kind"]]
+            if not (isinstance(t[v], int) and t[v] >= 0):
                 return False
         if scn.get("af", 0) not in (0, 4, 6):
             return False
@@ -395,6 +392,15 @@ def run(scn, full_log=False):
             s._connect_ok, s._connect_fail, s.getsockopt, s.close = _ok, _fail, getsockopt, close
 
         net.on_socket_created = on_created
+
+        def on_loop_error(lp, context):
+            # (the core handler logs the raw message, which contains object addresses)
+            exc = context.get("exception")
+            msg = str(context.get("message")).split("(")[0][:80]
+            env.loop_errors.append((msg, type(exc).__name__ if exc else None))
+            log.ev("loop_error", msg, type(exc).__name__ if exc else None)
+
+        loop.set_exception_handler(on_loop_error)
 
         if perm:
             def permute(items):
@@ -705,8 +711,9 @@ def run(scn, full_log=False):
                     probe("secondary_started_by_failure")
                 else:
                     probe("secondary_started_by_timer")
-                if any(p.start <= s0.start and p.end is not None and p.end == s0.start for p in prim):
-                    probe("he_timer_tie_with_completion")
+                    if any(p.end is not None and p.end == s0.start for p in prim):
+                        # a primary attempt completed in the very iteration the 0.3 s timer ran
+                        probe("he_timer_tie_with_completion")
         if any(a.res == "sync" for a in atts):
             probe("sync_connect_error")
         if any(a.res == "ctor" for a in atts):
